@@ -323,6 +323,8 @@ def _vnacal_family(rng):
     s.rvec("pfn", [-1.0, 2e9, 3e9])
     s.cvec("pg", [1, 2j, 3])
     s.rvec("sg", [0.1, 0.1, 0.1])
+    # increasing, but by less than any spline routine is likely to accept
+    s.rvec("pfclose", [1.0, 1.00001, 3.0])
     s.rvec("sg0", [0.0])
     s.rvec("sgn", [-0.5])
     X("", "pv=vnacal_make_vector_parameter $vc1 @pf 3 @pg")
@@ -345,6 +347,8 @@ def _vnacal_family(rng):
            ("!", "px=vnacal_make_correlated_parameter $vc1 $pv @pf 3 NULL"),
            ("!", "px=vnacal_make_correlated_parameter $vc1 $pv @pfn 3 @sg"),
            ("", "px=vnacal_make_correlated_parameter $vc1 $pv NULL 2 @sg"),
+           ("", "px=vnacal_make_correlated_parameter $vc1 1 @pfclose 3 @sg"),
+           ("", "px=vnacal_make_correlated_parameter $vc1 1 @pfclose 2 @sg"),
            ("", "px=vnacal_make_correlated_parameter $vc1 0 NULL 3 @sg"),
            ("", "px=vnacal_make_correlated_parameter $vc1 $pv NULL 1 @sg0"),
            ("", "px=vnacal_make_correlated_parameter $vc1 $pv NULL 1 @sgn"),
@@ -393,6 +397,10 @@ def _vnacal_family(rng):
             ("@freq 2 @nsigneg NULL", "@freq 2 NULL @nsig",
              "@freq 2 @nsig @nsigneg", "@nfe 2 @nsig NULL")]
     new += [("", "vnacal_new_set_m_error $vn3 NULL 2 NULL NULL")]
+    s.rvec("nfclose", [0.5e9, 0.5e9 + 6e-5, 4e9])
+    s.rvec("nsig3", [1e-3, 1e-3, 1e-3])
+    new += [("", "vnacal_new_set_m_error $vn3 @nfclose 3 @nsig3 NULL"),
+            ("", "vnacal_new_set_m_error $vn3 @nfclose 3 @nsig3 @nsig3")]
     new += [("!", "vnacal_new_set_p_tolerance $vn3 -0x1p-20"),
             ("!", "vnacal_new_set_et_tolerance $vn3 -0x1p-20"),
             ("!", "vnacal_new_set_pvalue_limit $vn3 -0x1p-3"),
